@@ -6,7 +6,8 @@ sys.path.insert(0, os.path.dirname(os.path.dirname(os.path.abspath(__file__))))
 import storeprop  # noqa: E402
 
 ID = "C13"
-THEOREMS = ["c13_find_from_entity", "c13_find_from_container", "c13_no_limit", "c13_queue_is_level_order"]
+THEOREMS = ["c13_find_from_entity", "c13_find_from_container", "c13_no_limit", "c13_queue_is_level_order",
+            "c13_larger_limit_extends", "c13_limit_zero_entity", "c13_result_bounded"]
 PRELUDES = [
     [["create", 0, "CSections", "a", "t", []], ["create", 1, "CSections", "b", "t", []], ["create", 2, "CSections", "a", "t", []],
      ["create", 0, "CSections", "b", "t", []], ["create", 4, "CSections", "a", "t", []], ["create", 5, "CSections", "b", "t", []],
